@@ -164,12 +164,27 @@ func (w *Walker) Walk(
 		)
 		w.cancelAll()
 
-		if w.failFastTriggered {
-			return w.completions, nil
+		// Node routines may still be completing: hand the caller a snapshot taken under
+		// doneMutex instead of the live map they keep writing to.
+		completions, failFastTriggered := w.snapshotCompletions()
+		if failFastTriggered {
+			return completions, nil
 		} else {
-			return w.completions, ctx.Err()
+			return completions, ctx.Err()
 		}
 	}
+}
+
+// snapshotCompletions copies the completion map (and reads failFastTriggered) under doneMutex.
+func (w *Walker) snapshotCompletions() (CompletionMap, bool) {
+	w.doneMutex.Lock()
+	defer w.doneMutex.Unlock()
+
+	completions := make(CompletionMap, len(w.completions))
+	for targetLabel, completion := range w.completions {
+		completions[targetLabel] = completion
+	}
+	return completions, w.failFastTriggered
 }
 
 // cancelNode cancels a target if it is present in the graph (not idempotent!)
